@@ -6,10 +6,10 @@ set -u
 cd $WT || exit 2
 git diff -- . ':!demo' > /tmp/seed/$ID.patch.diff
 [ -s /tmp/seed/$ID.patch.diff ] || { echo "EMPTY-PATCH"; exit 2; }
-cmake --build _build -j8 2>&1 | tail -1
+cmake --build _build -j8 2>&1 | tail -1; [ -d _build_omp ] && cmake --build _build_omp -j8 2>&1 | tail -1
 T=$(ctest --test-dir _build -j8 --timeout 900 2>&1 | grep -E "tests passed|tests failed" | tail -1); echo "TESTS(with change): $T"
 bash demo/run.sh > /tmp/seed/$ID.demo_with.log 2>&1; RW=$?; echo "DEMO(with change) exit=$RW"
-git apply -R /tmp/seed/$ID.patch.diff && cmake --build _build -j8 2>&1 | tail -1
+git apply -R /tmp/seed/$ID.patch.diff && cmake --build _build -j8 2>&1 | tail -1; [ -d _build_omp ] && cmake --build _build_omp -j8 2>&1 | tail -1
 bash demo/run.sh > /tmp/seed/$ID.demo_without.log 2>&1; RO=$?; echo "DEMO(without change) exit=$RO"
 git apply /tmp/seed/$ID.patch.diff
 mkdir -p $OUT; cp /tmp/seed/$ID.patch.diff $OUT/patch.diff; cp demo/demo.cpp demo/run.sh $OUT/ 2>/dev/null; cp demo/NOTES.md $OUT/NOTES.md 2>/dev/null
